@@ -108,7 +108,7 @@ func (r *reader) acceptEffect(x *core.Explorer, ev *core.Event) bool {
 	headerRead := false
 	pre := x.Prefix()
 	for i := 0; i < len(pre)-1; i++ {
-		if e := &pre[i]; e.Depth == 0 && callsStatic(e, r.read) {
+		if e := &pre[i]; callsStatic(e, r.read) {
 			headerRead = true
 			break
 		}
@@ -118,7 +118,7 @@ func (r *reader) acceptEffect(x *core.Explorer, ev *core.Event) bool {
 	}
 	switch ev.Kind {
 	case core.EvCall:
-		if ev.Depth == 0 && callsStatic(ev, r.read) {
+		if callsStatic(ev, r.read) {
 			return true
 		}
 		if r.handlerCall(ev) != nil || callsStatic(ev, r.maskBytes) || callsStatic(ev, r.writeControl) || r.usesBr(ev) {
@@ -183,13 +183,13 @@ func mentionsB1(t *core.Term, P *core.Term) bool {
 func (r *reader) headerStage(rule string) []*hdrPath {
 	c := r.c
 	var out []*hdrPath
-	opts := core.Opts{Unroll: 0, Inline: func(f *ssa.Function, d int) bool { return f == r.setRem }}
+	opts := core.Opts{Unroll: 0, Inline: r.inl()}
 	opts.Stop = r.acceptEffect
 	c.explore(rule, r.advance, opts, func(p *core.Path) {
 		var P *core.Term
 		first := -1
 		for i := range p.Events {
-			if ev := &p.Events[i]; ev.Depth == 0 && callsStatic(ev, r.read) {
+			if ev := &p.Events[i]; callsStatic(ev, r.read) {
 				P = p.X.ExtractOf(ev.Result, 0, nil)
 				first = i
 				break
@@ -251,4 +251,29 @@ func (r *reader) compatible(x *core.Explorer, hp *hdrPath, s *hdrState, stage in
 		}
 	}
 	return true
+}
+
+// inl: inline setReadRemaining and every small unexported helper that is not
+// one of the reader's anchor functions, so that extracting a helper (or
+// moving a statement into one) does not change what the path rules see.
+func (rd *reader) inl() func(*ssa.Function, int) bool {
+	anchors := map[*ssa.Function]bool{rd.advance: true, rd.read: true, rd.protoErr: true, rd.nextReader: true, rd.mrRead: true,
+		rd.maskBytes: true, rd.writeControl: true}
+	for _, n := range []string{"isValidReceivedCloseCode", "FormatCloseMessage", "(*Conn).writeFatal", "(*Conn).write", "newConn"} {
+		if f := rd.c.P.FuncOpt(n); f != nil {
+			anchors[f] = true
+		}
+	}
+	return func(f *ssa.Function, depth int) bool {
+		if f == rd.setRem {
+			return true
+		}
+		if anchors[f] || depth > 2 || len(f.Blocks) > 12 {
+			return false
+		}
+		if o := f.Object(); o != nil && o.Exported() {
+			return false
+		}
+		return true
+	}
 }
